@@ -110,12 +110,13 @@ theorem connect_sound {c : Ctx} {s : Store} {chain rest : List Block} {b : Block
     ∃ s' conf, filterBlock c s (readyWallets s c.wallets) b = .ok (s', conf) ∧ Inv c s' (chain ++ [b]) ∧
       s'.status = s.status := Lemmas.Ledger.connect_sound hI hnode hvalid hheight hAR hne
 
-/-- the same including the address records (first-use heights) -/
-theorem connect_sound_addrs {c : Ctx} {s : Store} {chain rest : List Block} {b : Block}
-    (hI : InvFull c s chain) (hnode : c.node.chain = chain ++ b :: rest) (hvalid : ChainValid c.own c.node.chain)
+/-- the same including the address records (first-use heights; `a0` = the records of the addresses issued so far) -/
+theorem connect_sound_addrs {c : Ctx} {s : Store} {a0 : Wid × Bool × Addr → Option Nat}
+    {chain rest : List Block} {b : Block}
+    (hI : InvFull c s a0 chain) (hnode : c.node.chain = chain ++ b :: rest) (hvalid : ChainValid c.own c.node.chain)
     (hheight : b.height = chain.length)
     (hAR : AllReady c.own (readyWallets s c.wallets)) (hne : (readyWallets s c.wallets).isEmpty = false) :
-    ∃ s' conf, filterBlock c s (readyWallets s c.wallets) b = .ok (s', conf) ∧ InvFull c s' (chain ++ [b]) ∧
+    ∃ s' conf, filterBlock c s (readyWallets s c.wallets) b = .ok (s', conf) ∧ InvFull c s' a0 (chain ++ [b]) ∧
       s'.status = s.status := connect_sound_full hI hnode hvalid hheight hAR hne
 
 /-- build_sound: processing the blocks of any valid chain one by one reaches the invariant -/
@@ -244,6 +245,14 @@ example : ObsHyp obCtx obS obChain ∧ (readyWallets obS obCtx.wallets).contains
 /-- a concrete history with a reorganisation satisfies `RunHyp`
     (extend b1, extend b2, handle, handle, reorganise to a sibling of b2, handle) -/
 example : RunHyp hxEnv hxG hxW0 hxEvs := hxRunHyp
+
+/-- a concrete history with address issuance satisfies `RunHypI` (the address is issued while a notification
+    is pending and paid by a later block) -/
+example : RunHypI ixEnv hxG ix0 ixEvs := ixRunHypI
+
+/-- a fresh store satisfies `FreshStore`, hence `Inv` and `InvFull` for the genesis block -/
+example : FreshStore d2CtxS d2S0 d2G := d2Fresh
+example : InvFull d2CtxS d2S0 (fun k => AMap.get d2S0.addrs k) [d2G] := invFull_fresh d2Fresh
 
 /-- the hypothesis `paid` of `ledger_correct_issue` is necessary: issuing an address AFTER a block paying it
     has been handled leaves the wallet without that payment -/
